@@ -1,6 +1,118 @@
-import TmVerif.Model.Diff
-namespace TmVerif.Diff
+import TmVerif.Proofs.DiffApply
+/-!
+C27 — Line diffs are correct and minimal (property theorems only).
 
-theorem C27_placeholder : optimize [] = [] := rfl
+Model: `TmVerif/Model/Diff.lean` mirrors `/repo/util/diff/diff.go`. `lcsWith raw` is the Go `lcs`
+with the Myers search `middle` replaced by an arbitrary oracle `raw` for the split point (the
+snake is re-checked element by element, as in the Go code); `lcs = lcsWith middleRaw`.
+`none` models `log.Fatal` / an out-of-range slice / exhausted fuel.
+-/
+namespace TmVerif.Diff
+open scoped List
+variable {α : Type} [DecidableEq α]
+
+/-- Correctness of the edit script, for ANY split-point oracle and all inputs: whenever `lcs`
+returns, applying its chunks to `a` (deleting `del` lines, inserting the `ins` lines `LineDiff`
+prints, keeping `eq` lines) yields exactly `b`, and the script's cost is the number of lines
+actually deleted and inserted. -/
+theorem C27_script_transforms (raw : List α → List α → Option (Nat × Nat × Nat)) (a b : List α)
+    (cs : List Chunk) (h : lcsWith raw a b = some cs) :
+    applyEdits (toEdits cs b) a = some b ∧ editCost (toEdits cs b) = scriptCost cs :=
+  valid_apply cs a b (lcs_valid raw a b cs h)
+
+-- non-vacuity: the premise is satisfiable (here without ever consulting the oracle)
+example : lcsWith (fun _ _ => none) [1, 2, 5] [1, 3, 5] = some [⟨0, 0, 1⟩, ⟨1, 1, 1⟩] := by decide
+
+/-- The dynamic-programming reference is the length of a longest common subsequence: it is
+attained by a common subsequence and no common subsequence is longer. -/
+theorem C27_dpLcs_optimal (a b : List α) :
+    (∃ s, s <+ a ∧ s <+ b ∧ s.length = dpLcs a b) ∧
+    ∀ s, s <+ a → s <+ b → s.length ≤ dpLcs a b := by
+  rw [dpLcs_eq]
+  exact ⟨lcsRec_witness a b, fun s h1 h2 => lcsRec_upper a b s h1 h2⟩
+
+/-- No way of editing `a` into `b` by deleting, inserting and keeping lines costs less than
+`|a| + |b| - 2·dpLcs a b`: this is what "minimal" is measured against. -/
+theorem C27_cost_lower_bound (es : List (Edit α)) (a b : List α) (h : applyEdits es a = some b) :
+    a.length + b.length ≤ editCost es + 2 * dpLcs a b := by
+  rw [dpLcs_eq]; exact editCost_lower es a b h
+
+/-- Minimality, given that every split point the oracle returns lies on an optimal path
+(`OptimalSplit`, decidable per instance; the driver evaluates it for the mirrored Myers search on
+every `mid` case and checks `cost = |a| + |b| - 2·dpLcs a b` on every script the Go code returns). -/
+theorem C27_script_minimal_partial (raw : List α → List α → Option (Nat × Nat × Nat))
+    (hraw : OptimalSplit raw) (a b : List α) (cs : List Chunk) (h : lcsWith raw a b = some cs) :
+    scriptCost cs + 2 * dpLcs a b = a.length + b.length := by
+  rw [dpLcs_eq]; exact lcs_minimal raw hraw a b cs h
+
+/-- The full statement (not proved): the mirrored Myers search always returns and is minimal. -/
+def C27_script_minimal_full : Prop :=
+  ∀ (β : Type) [DecidableEq β] (a b : List β),
+    ∃ cs, lcs a b = some cs ∧ scriptCost cs + 2 * dpLcs a b = a.length + b.length
+
+-- non-vacuity of the hypothesis
+example : OptimalSplit (fun (_ _ : List Nat) => none) := by intro a b ai bi mx h; cases h
+
+/-- The rendered diff is empty exactly when the texts are equal. -/
+theorem C27_linediff_empty_iff_equal (left right : List Char) :
+    lineDiff left right = some [] ↔ left = right :=
+  lineDiff_nil_iff left right
+
+/-- No run of more than 14 deleted or inserted lines in the script of `left`/`right`
+(`hunk.add` renders at most 14 lines of a run and replaces the rest by a marker line). -/
+def ShortRuns (left right : List Char) : Prop :=
+  ∀ cs, lcs (splitLines left) (splitLines right) = some cs → ∀ c ∈ cs, c.del ≤ 14 ∧ c.ins ≤ 14
+
+/-- The hunks apply: for texts whose script has no run of more than 14 changed lines, the patch
+applier run on the hunks `LineDiff` writes, applied to the lines of the first text, yields exactly
+the lines of the second text (line numbers and sizes in the hunk headers are checked by
+`applyHunks`). The hypothesis is exactly what the proof forces: see `C27_hunks_apply_full_fails`. -/
+theorem C27_hunks_apply_partial (left right : List Char) (hs : List Hunk)
+    (h : lineDiffHunks left right = some hs) (hshort : ShortRuns left right) :
+    applyHunks hs (splitLines left) = some (splitLines right) := by
+  unfold lineDiffHunks at h
+  split at h
+  case isTrue he => cases h; subst he; rfl
+  case isFalse he =>
+    cases hl : lcs (splitLines left) (splitLines right) with
+    | none => simp [hl] at h
+    | some cs =>
+      simp [hl] at h
+      subst h
+      exact hunksOfChunks_apply _ _ cs (lcs_valid _ _ _ _ hl) (hshort cs hl)
+
+/-- the full statement, without the restriction on run lengths -/
+def C27_hunks_apply_full : Prop :=
+  ∀ (left right : List Char) (hs : List Hunk), lineDiffHunks left right = some hs →
+    applyHunks hs (splitLines left) = some (splitLines right)
+
+/-- witness: "x\ny" against "x", fifteen new lines, "y" -/
+def elisionLeft : List Char := ['x', '\n', 'y']
+def elisionRight : List Char :=
+  ['x', '\n', 'a', '\n', 'b', '\n', 'c', '\n', 'd', '\n', 'e', '\n', 'f', '\n', 'g', '\n', 'h', '\n',
+   'i', '\n', 'j', '\n', 'k', '\n', 'l', '\n', 'm', '\n', 'n', '\n', 'o', '\n', 'y']
+
+/-- The full statement is FALSE for the mirror (and, by the byte-for-byte correspondence of the
+rendering, for `diff.LineDiff`): fifteen inserted lines are elided and the hunk does not apply. -/
+theorem C27_hunks_apply_full_fails : ¬ C27_hunks_apply_full := by
+  intro hfull
+  have h1 : (lineDiffHunks elisionLeft elisionRight).bind
+      (fun hs => applyHunks hs (splitLines elisionLeft)) ≠ some (splitLines elisionRight) := by
+    decide
+  cases hl : lineDiffHunks elisionLeft elisionRight with
+  | none => exact absurd hl (by decide)
+  | some hs =>
+    apply h1
+    rw [hl]
+    exact hfull _ _ hs hl
+
+-- non-vacuity of `ShortRuns` on a text pair with a real change
+example : ShortRuns ['a', '\n', 'b'] ['a', '\n', 'c'] := by
+  intro cs h
+  have : lcs (splitLines ['a', '\n', 'b']) (splitLines ['a', '\n', 'c']) = some [⟨0, 0, 1⟩, ⟨1, 1, 0⟩] := by
+    decide
+  rw [this] at h
+  cases h
+  decide
 
 end TmVerif.Diff
